@@ -145,7 +145,18 @@ func cmdAbi(args []string) {
 				leaves["method"] = [][]byte{m[:]}
 				logic := addrTable(v, 55)
 				timeout, inonce := u63Table(v, 1), u63Table(v, 2)
-				scope := sha256.Sum256([]byte(fmt.Sprintf("scope-%d", v)))
+				scopeFull := sha256.Sum256([]byte(fmt.Sprintf("scope-%d", v)))
+				// the invalidation scope is a byte string of any length on the hub; the contract takes a bytes32:
+				// left aligned, zero padded (a scope longer than 32 bytes is cut)
+				slen := 32
+				if _, ok := sh["slen"]; ok {
+					slen = geti(sh, "slen")
+				}
+				scopeBytes := append([]byte{}, scopeFull[:]...)
+				scopeBytes = append(scopeBytes, scopeFull[:8]...) // 40 bytes available
+				scopeBytes = scopeBytes[:slen]
+				var scope [32]byte
+				copy(scope[:], scopeBytes)
 				leaves["logic"] = [][]byte{word(new(big.Int).SetBytes(logic.Bytes()))}
 				leaves["timeout"] = [][]byte{word(new(big.Int).SetUint64(timeout))}
 				leaves["invalidationNonce"] = [][]byte{word(new(big.Int).SetUint64(inonce))}
@@ -168,7 +179,7 @@ func cmdAbi(args []string) {
 					payload[i] = byte(i*7 + v + 1)
 				}
 				leaves["payload"] = [][]byte{payload}
-				hubDigest = mhubtypes.ContractCallTx{InvalidationNonce: inonce, InvalidationScope: scope[:], Address: logic.Hex(), Payload: payload,
+				hubDigest = mhubtypes.ContractCallTx{InvalidationNonce: inonce, InvalidationScope: scopeBytes, Address: logic.Hex(), Payload: payload,
 					Timeout: timeout, Tokens: toks, Fees: fees}.GetCheckpoint([]byte(gid))
 			}
 		}()
